@@ -391,6 +391,8 @@ def rule_const_in(ctx, prog, chk, prefix=("src/fp/", "src/low/easy/relic_fp")):
 def analyse(ctx, prog, chk, floors=False):
     chk.used_program(prog)
     c = {"inv": rule_inv0(ctx, prog, chk), "exp": rule_exp(ctx, prog, chk), "srt": rule_srt(ctx, prog, chk)}
+    from .. import expsib
+    c["bits"] = expsib.rule_loop_bits(ctx, prog, chk, [fn for fn in prog.all if EXP.match(base(fn)) or base(fn) == "fp_exp_dig"])
     c["canon"], found = rule_canon(ctx, prog, chk)
     c["carry"] = rule_canon_carry(ctx, prog, chk)
     c["const"] = rule_const_in(ctx, prog, chk)
@@ -414,6 +416,7 @@ def run(ctx, chk):
     chk.floor("INV0", "inversion variants", c["inv"], 7)
     chk.floor("EXP-SIB", "exponentiation siblings (2 obligations each)", c["exp"], 6)
     chk.floor("SRT-VERDICT", "square-root functions", c["srt"], 1)
+    chk.floor("LOOP-BITS", "bit scans of exponents", c["bits"], 2)
     chk.floor("CANON", "routines with a final conditional subtraction", c["canon"], 5)
     chk.floor("CONST-IN", "const pointer parameters of the module", c["const"], 100)
     chk.floor("ALIAS-RW", "output/input pairs of the same handle type", c["alias"], 40)
